@@ -166,7 +166,8 @@ namespace trompeloeil {
     retire_predecessors()
     noexcept
     {
-      seq->retire_until(this);
+      // if this one has itself been passed already there is nothing before it
+      if (this->is_linked()) seq->retire_until(this);
     }
 
     void
